@@ -360,6 +360,12 @@ static void setup(void) {
 void h_aux(void) {
   setup();
   __CPROVER_assume(g_ha < g_hb);
+  /* the two cases of the induction can be checked by separate jobs: PART 1 the single item, PART 2 the split */
+#if defined(PART) && PART == 1
+  __CPROVER_assume(g_hb - g_ha == 1);
+#elif defined(PART) && PART == 2
+  __CPROVER_assume(g_hb - g_ha >= 2);
+#endif
   /* f_i is what the table holds (definition); instance for the one slot this call can read itself */
   __CPROVER_assume(FUNCS[g_Pha_f / 8] == ((g_fs == 0 || g_ha == g_w) ? F_watch : F_other));
   H_ARG.ids = g_ids; H_ARG.attrs = g_attrs; H_ARG.funcs = (void *)FUNCS; H_ARG.args = (void *)ARGS; H_ARG.results = g_res;
